@@ -11,7 +11,17 @@ from . import common, gencalls, implrun, irser
 from .c08 import eq
 from .common import sx
 
-KINDS = ["positional", "name_kw", "all_kw", "var_kw", "object", "argindex_kw"]
+KINDS = ["positional", "name_kw", "all_kw", "var_kw", "object", "argindex_kw", "deco_positional", "deco_all_kw", "deco_name_kw"]
+
+
+def _deco(f):
+    """one decorator shared by several factories: inspect.signature follows __wrapped__ to the signature of each of them"""
+    import functools
+
+    @functools.wraps(f)
+    def wrapper(*a, **k):
+        return f(*a, **k)
+    return wrapper
 
 
 class Recorder:
@@ -66,10 +76,14 @@ class Recorder:
                 rec.calls.append((shape, {"name": name}))
                 return rec.result(shape)
 
+        if self.kind.startswith("deco_"):
+            return _deco({"positional": positional, "name_kw": name_kw, "all_kw": all_kw}[self.kind[5:]])
         return {"positional": positional, "name_kw": name_kw, "all_kw": all_kw, "var_kw": var_kw, "object": Obj(), "argindex_kw": argindex_kw}[self.kind]
 
 
 def expected_kwargs(kind, op, idx):
+    if kind.startswith("deco_"):
+        kind = kind[5:]
     if kind == "positional":
         return {}
     if kind in ("name_kw", "object"):
